@@ -101,6 +101,7 @@ class SimTransport(asyncio.Transport):
         self.fail_exc = None
         self.pause_plan: list = []          # per write: number of loop steps to keep writing paused (0 = no pause)
         self.eof_sent = False
+        self.drain_fails = None            # fail the k-th next drain() without touching the read side
 
     # --- asyncio.Transport API (what StreamWriter / StreamReaderProtocol use) ---------------
     def get_extra_info(self, name, default=None):
@@ -220,6 +221,21 @@ class SimTransport(asyncio.Transport):
         exc = exc or ConnectionResetError("simulated reset by peer")
         self.sim.ev("reset", conn=self.id, exc=type(exc).__name__)
         self._force_close(exc)
+
+
+class SimStreamWriter(asyncio.StreamWriter):
+    """asyncio's StreamWriter plus one extra, explicitly requested fault: drain() fails although the read side of
+    the link stays silent (what the client observes when only the write direction of a link breaks)."""
+
+    async def drain(self):
+        tr = self._transport
+        if getattr(tr, "drain_fails", None) is not None:
+            if tr.drain_fails == 0:
+                tr.drain_fails = None
+                tr.sim.ev("drain_failed", conn=tr.id)
+                raise ConnectionResetError("simulated: write direction broken, read direction silent")
+            tr.drain_fails -= 1
+        await super().drain()
 
 
 class Sim:
@@ -357,7 +373,7 @@ class Sim:
         tr = SimTransport(self, cid, serial_like)
         tr.protocol = protocol
         protocol.connection_made(tr)
-        writer = asyncio.StreamWriter(tr, protocol, reader, loop)
+        writer = SimStreamWriter(tr, protocol, reader, loop)
         self.conns.append(tr)
         att["outcome"] = "accepted"
         att["conn"] = cid
